@@ -28,6 +28,7 @@ type clause struct {
 }
 
 type loopSpec struct {
+	panicPoint bool
 	invs     []clause
 	decr     string
 	unroll   int
@@ -171,6 +172,9 @@ func parseContractFile(path string, pkgPath string) ([]*Contract, []string, erro
 			var n int
 			var sub string
 			parts := strings.SplitN(rest, " ", 3)
+			if len(parts) == 2 && parts[1] == "panicpoint" {
+				parts = append(parts, "")
+			}
 			if len(parts) < 3 {
 				return nil, nil, fmt.Errorf("%s:%d: bad loop clause", path, i+1)
 			}
@@ -190,6 +194,9 @@ func parseContractFile(path string, pkgPath string) ([]*Contract, []string, erro
 			case "invariant":
 				ls.invs = append(ls.invs, clause{label: invLabel, expr: parts[2], line: i + 1})
 				lastClause = &ls.invs[len(ls.invs)-1]
+			case "panicpoint":
+				// the panic predicate is proved once at this loop head (and then known in the body)
+				ls.panicPoint = true
 			case "decreases":
 				ls.decr = parts[2]
 			case "unroll":
